@@ -54,7 +54,7 @@ func checkC19(c *Ctx) {
 
 	read := p.Func("drivers/midicat", "Read")
 	rac := p.Func("drivers/midicat", "ReadAndConvert")
-	outT := p.namedType("drivers/midicatdrv", "out")
+	outT := p.roleT("drivers/midicatdrv.out")
 	if read == nil || rac == nil || outT == nil {
 		c.Unk("C19.1", "midicat.Read / ReadAndConvert / midicatdrv out port", "-", "not resolved")
 		return
